@@ -1,1 +1,2 @@
 pub mod net_chain;
+pub mod powertrain;
